@@ -601,6 +601,38 @@ def rule_eq_form(rep, db, acc=None):
         (rep.fail if why else rep.ok)("EQ-FORM", key, F.primary_site(fn), F.describe(fn)[:160], **({"why": why} if why else {"how": "conjunction(%s)" % ", ".join(n for k, n in es)}))
 
 
+def _anon(t, ren):
+    """term with variables identified by their canonical (positional) name only, optionally renamed: comparable across functions"""
+    if isinstance(t, tuple):
+        if len(t) == 3 and t[0] == "v":
+            return ("v", ren.get(t[2], t[2]))
+        return tuple(_anon(x, ren) for x in t)
+    return t
+
+
+_NEG_OP = {"==": "!=", "!=": "==", "<": ">=", ">=": "<", ">": "<=", "<=": ">"}
+
+
+def _nnf(t, negate):
+    """negation normal form of a boolean term: negations pushed through &&, ||, ?: and BUILT-IN comparisons (an overloaded
+    operator call is an atom: its negation stays a negation)"""
+    if isinstance(t, tuple) and t:
+        if t[0] == "u" and t[1] == "!":
+            return _nnf(t[2], not negate)
+        if t[0] == "b" and t[1] in ("&&", "||"):
+            o = t[1] if not negate else ("||" if t[1] == "&&" else "&&")
+            return ("b", o, _nnf(t[2], negate), _nnf(t[3], negate))
+        if t[0] == "cond":
+            return ("cond", _nnf(t[1], False), _nnf(t[2], negate), _nnf(t[3], negate))
+        if t[0] == "b" and t[1] in ("==", "!=") and negate:
+            return ("b", _NEG_OP[t[1]], t[2], t[3])
+        if t in (("k", "1"), ("k", "true")):
+            return ("k", "0") if negate else ("k", "1")
+        if t in (("k", "0"), ("k", "false")):
+            return ("k", "1") if negate else ("k", "0")
+    return ("u", "!", t) if negate else t
+
+
 def main(rep, tier, only):
     db = load.load(tier, lib=False, drivers=["drv_compare", "drv_oev"])
     rep.extra.update(db.stats())
@@ -755,6 +787,20 @@ def main(rep, tier, only):
                 how = "!(a < b)"
                 if not ok and mirrors_components(t, ">=", a, b):
                     ok, how = True, "mirrored underlying >="
+        if not ok:
+            # the base operator written out in place: the term is the (negated / operand-swapped) RESULT of the sibling == / <
+            # of the same operand types, compared in negation normal form
+            base_op, negate, swap = {"!=": ("==", True, False), ">": ("<", False, True), "<=": ("<", True, True), ">=": ("<", True, False)}[op]
+            sib = [g for g in db.functions if g.get("op") == base_op and len(g.get("params", [])) == 2 and g["_unit"] is u
+                   and [F.strip_targs((u.ty(p["t"]) or "").replace("const ", "").replace(" &", "")) for p in g["params"]] == pts
+                   and u.file_of(g["primary"]) == u.file_of(fn["primary"])]
+            t_self = T.return_term(u, fn)
+            t_sib = T.return_term(u, sib[0]) if sib else None
+            if t_self is not None and t_sib is not None:
+                lhs = _nnf(_anon(t_self, {}), negate)
+                rhs = _nnf(_anon(t_sib, {"r_a0": "r_a1", "r_a1": "r_a0"} if swap else {}), False)
+                if lhs == rhs:
+                    ok, how = True, "operator%s written out: %s of the sibling operator%s%s" % (op, "the negation" if negate else "the result", base_op, " with the operands exchanged" if swap else "")
         key = "%s operator%s" % (pts[0].replace("fcppt::", ""), op)
         (rep.ok if ok else rep.fail)("DERIVED", key, site, F.describe(fn)[:140],
                                      **({"how": how} if ok else {"why": "operator%s is `%s`; accepted forms: %s or the same operator mirrored on the operands' components" % (op, T.show(t) if t else "?", how)}))
